@@ -1191,20 +1191,37 @@ def v7(e: Engine, rep: Report):
 
 # ---------------------------------------------------------------------- V8
 def v8(e: Engine, rep: Report):
+    import re as _re
     m = e.p.modules.get(MOD)
     n = 0
+    fmts = []           # (format text, line)
+    looks = _re.compile(r'^[@=<>!]?(\d*[xcbB?hHiIlLqQnNefdspP])+$')
+    seen = set()
     for x in ast.walk(m.tree):
-        if not isinstance(x, ast.Call):
+        if isinstance(x, ast.Call):
+            fn = ast.unparse(x.func)
+            if (fn.endswith('Struct') or fn.endswith('unpack') or
+                    fn.endswith('unpack_from') or fn.endswith('pack') or
+                    fn.endswith('calcsize')) and x.args and \
+                    isinstance(x.args[0], ast.Constant) and \
+                    isinstance(x.args[0].value, (str, bytes)):
+                fmts.append((x.args[0].value, x.lineno))
+                seen.add(id(x.args[0]))
+    # formats kept in class-level tables / constants
+    for cq, c in e.p.classes.items():
+        if c.module is not m:
             continue
-        fn = ast.unparse(x.func)
-        if not (fn.endswith('Struct') or fn.endswith('unpack') or
-                fn.endswith('unpack_from') or fn.endswith('pack') or
-                fn.endswith('calcsize')):
-            continue
-        if not (x.args and isinstance(x.args[0], ast.Constant) and
-                isinstance(x.args[0].value, (str, bytes))):
-            continue
-        fmt = x.args[0].value
+        for st in c.node.body:
+            if not isinstance(st, ast.Assign):
+                continue
+            for y in ast.walk(st.value):
+                if isinstance(y, ast.Constant) and id(y) not in seen and \
+                        isinstance(y.value, str) and len(y.value) >= 2 and \
+                        looks.match(y.value) and any(
+                            ch.isdigit() or ch in 'HhIiLlQq'
+                            for ch in y.value):
+                    fmts.append((y.value, y.lineno))
+    for fmt, line in fmts:
         fmt = fmt.decode() if isinstance(fmt, bytes) else fmt
         n += 1
         rep.evaluations += 1
@@ -1216,7 +1233,7 @@ def v8(e: Engine, rep: Report):
                   'read byte-swapped (12 becomes 3072), the parser reads '
                   'through the payload and well-formed headers end in the '
                   'invalid address' % fmt,
-                  loc='%s:%d' % (m.relpath, x.lineno),
+                  loc='%s:%d' % (m.relpath, line),
                   reason='starts with `!`' if multi else 'single bytes only')
     if n < 3:
         rep.error('anchor vanished: struct formats of %s (%d < 3)' % (MOD, n))
